@@ -96,6 +96,16 @@ func scenarioC05(r *Run) {
 		b, victim = r.c05Twins(t, ent)
 	} else if t.Bool(1, 20, "c05.many") {
 		b, victim = r.c05ManySigners(t, fm, ent)
+	} else if t.Bool(1, 25, "c05.neartwin") {
+		// history: a conforming message is decoded by every decoder first, then
+		// its near twin (twins.go) is judged like any other input
+		tw := genTwins(t)
+		for i := range WireDecoders {
+			dec := &WireDecoders[i]
+			r.Lib(func() { dec.Into(dec.New(), append([]byte{}, tw.a...)) })
+		}
+		b, victim = tw.b, &Wire{Kind: refcose.KSign1Tagged, Dec: "Sign1Message", B: tw.b, Desc: "near twin (" + tw.how + ") of a message decoded just before"}
+		r.Fired("history.near-twin/" + tw.how)
 	} else if t.Bool(1, 10, "c05.deep") {
 		// long chains of nested countersignatures (a countersignature on a
 		// countersignature on ...): the rules hold in every layer however deep
